@@ -191,3 +191,13 @@ check("C15",
       "Outside: copula / coupled simulators' assembly code. Known findings: fixed-date jump component not cumulative across several dates; last gap to the "
       "maturity not subdivided.",
       TECH, "DESIGN.md section 3 C15")
+
+check("C08",
+      "Bounded model checking of the real standard and multilevel engines, Configuration.initialisation_seed and the real direct simulator against an "
+      "RNG-stream model (a draw is the uninterpreted value rng(seed, position); seeding sets (seed, 0)), a clock/pid model (solver-chosen readings) and a "
+      "process-pool model (fork = deep copy of the reachable objects and generator state, solver-chosen contiguous chunking): two seeded single-process "
+      "runs produce syntactically identical prices (seed 7 and seed 0, both engines); for every pair of distinct samples the solver looks for clock, pid and "
+      "chunk values making their payoff terms contain the same rng(seed, position) - unsat for single-process runs of both engines.",
+      "Trusted: z3; the three environment models (listed in evidence.assumptions). Bounds: <= 2/3 paths, 1-2 workers, levels 0..1, one extra pass. Outside: "
+      "python's `random` stream, jump-time mode, pools in the multilevel engine. Known finding: forked workers of the standard engine share the pre-drawn rows.",
+      TECH, "DESIGN.md section 3 C08")
